@@ -1,9 +1,9 @@
 (* C03 -- the computable guard analysis.  [an opt p cx a] over-approximates, for EVERY world of
    the fault model, what script [p] can do when started in abstract state [a]:
    a = (gone?, oneshot cache active?), result = how p ends (normally / return / raising class x)
-   and in which abstract state.  [opt l] says that access l may fail with ENOENT/ESRCH/EINVAL even
-   while the process is alive (an optional or racing file); every other per-process access can, while
-   the process is alive, only succeed or be refused.  Definitions only; soundness is in Proofs.v. *)
+   and in which abstract state.  [opt l] says whether access l may fail with ENOENT/ESRCH (and EINVAL)
+   even while the process is alive (an optional or racing file); every other per-process access can,
+   while the process is alive, only succeed or be refused.  Definitions only; soundness is in Proofs.v. *)
 From PV Require Import Base.Prelude C03.Model.
 Local Open Scope list_scope.
 
@@ -21,15 +21,23 @@ Definition dd (l : ares) : ares := nodup ar_eq_dec l.
 Definition vx (k : akind) : xc := xc_of (vanish_errno k).
 Definition gs (g : bool) : list bool := if g then [true] else [false; true].
 
-Definition acc_self (o : bool) (k : akind) (a : astate) : ares :=
+Definition acc_self (o : oclass) (k : akind) (a : astate) : ares :=
   let (g, c) := a in
   if g then [(ARaise (vx k), (true, c))]
   else [(ANormal, (false, c)); (ARaise XPerm, (false, c)); (ARaise (vx k), (true, c))]
-       ++ (if o then [(ARaise XFnf, (false, c)); (ARaise XEsrch, (false, c)); (ARaise XOsOther, (false, c))] else []).
-Definition acc_other (o : bool) (a : astate) : ares :=
+       ++ match o with
+          | Strict => []
+          | MayVanish => [(ARaise XFnf, (false, c)); (ARaise XEsrch, (false, c))]
+          | MayVanishOrInval => [(ARaise XFnf, (false, c)); (ARaise XEsrch, (false, c)); (ARaise XOsOther, (false, c))]
+          end.
+Definition acc_other (o : oclass) (a : astate) : ares :=
   let (g, c) := a in
-  flat_map (fun g' => [(ANormal, (g', c)); (ARaise XPerm, (g', c)); (ARaise XFnf, (g', c)); (ARaise XEsrch, (g', c))]
-                      ++ (if o then [(ARaise XOsOther, (g', c))] else [])) (gs g).
+  flat_map (fun g' => [(ANormal, (g', c)); (ARaise XPerm, (g', c))]
+                      ++ match o with
+                         | Strict => []
+                         | MayVanish => [(ARaise XFnf, (g', c)); (ARaise XEsrch, (g', c))]
+                         | MayVanishOrInval => [(ARaise XFnf, (g', c)); (ARaise XEsrch, (g', c)); (ARaise XOsOther, (g', c))]
+                         end) (gs g).
 Definition acc_global (a : astate) : ares :=
   let (g, c) := a in map (fun g' => (ANormal, (g', c))) (gs g).
 (* abstract states a loop iteration can start in *)
@@ -37,7 +45,7 @@ Definition reach (a : astate) : list astate :=
   flat_map (fun g' => [(g', false); (g', true)]) (gs (fst a)).
 Definition nonnormal (r : asig * astate) : bool := match fst r with ANormal => false | _ => true end.
 
-Fixpoint an (opt : label -> bool) (p : prog) (cx : xc) (a : astate) {struct p} : ares :=
+Fixpoint an (opt : label -> oclass) (p : prog) (cx : xc) (a : astate) {struct p} : ares :=
   match p with
   | Skip | SetFlag _ _ | LoadNames _ => [(ANormal, a)]
   | Ret => [(AReturn, a)]
@@ -79,7 +87,7 @@ Definition ok_end (r : asig * astate) : bool :=
   | (ARaise (XZombie Self), _) | (ARaise (XAD Self), _) => true
   | _ => false
   end.
-Definition well_guarded (opt : label -> bool) (p : prog) : bool :=
+Definition well_guarded (opt : label -> oclass) (p : prog) : bool :=
   forallb ok_end (an opt p XPy (false, false)) && forallb ok_end (an opt p XPy (true, false)).
 (* weaker: psutil errors only, NoSuchProcess also tolerated for a process that is still there *)
 Definition ok_end_weak (r : asig * astate) : bool :=
@@ -88,10 +96,21 @@ Definition ok_end_weak (r : asig * astate) : bool :=
   | (ARaise (XNSP Self), _) | (ARaise (XZombie Self), _) | (ARaise (XAD Self), _) => true
   | _ => false
   end.
-Definition weakly_guarded (opt : label -> bool) (p : prog) : bool :=
+Definition weakly_guarded (opt : label -> oclass) (p : prog) : bool :=
   forallb ok_end_weak (an opt p XPy (false, false)) && forallb ok_end_weak (an opt p XPy (true, false)).
 (* once gone: the call can only raise NoSuchProcess(own pid) *)
 Definition only_nsp (r : asig * astate) : bool :=
   match r with (ARaise (XNSP Self), _) => true | _ => false end.
-Definition gone_guarded (opt : label -> bool) (p : prog) : bool :=
+Definition gone_guarded (opt : label -> oclass) (p : prog) : bool :=
   forallb only_nsp (an opt p XPy (true, false)).
+
+(* calls that also query OTHER Process objects (parent, children): psutil errors of those are tolerated,
+   bare errors are not *)
+Definition ok_end_tree (r : asig * astate) : bool :=
+  match r with
+  | (ANormal, _) | (AReturn, _) => true
+  | (ARaise (XNSP _), _) | (ARaise (XZombie _), _) | (ARaise (XAD _), _) => true
+  | _ => false
+  end.
+Definition tree_guarded (opt : label -> oclass) (p : prog) : bool :=
+  forallb ok_end_tree (an opt p XPy (false, false)) && forallb ok_end_tree (an opt p XPy (true, false)).
